@@ -245,3 +245,47 @@ package stack
 //@   requires s != nil && r != nil
 //@   modifies nothing
 //@   ensures [sigEqualIsSpec C05 C12] result <==> EqSig(s, r)
+
+// ---- stack.go: ordering (C13) ------------------------------------------------
+//@ spec cntMain(calls []Call, n int) int = n <= 0 ? 0 : cntMain(calls, n-1) + (calls[n-1].Func.IsPkgMain ? 1 : 0)
+//@ spec cntLoc(calls []Call, n int, loc int) int = n <= 0 ? 0 : cntLoc(calls, n-1, loc) + (calls[n-1].Location == loc ? 1 : 0)
+//@ spec FrameLt(a []Call, b []Call, x int) bool = 0 <= x && x < len(a) && x < len(b) && (a[x].Func.Complete < b[x].Func.Complete || (a[x].Func.Complete == b[x].Func.Complete && (a[x].DirSrc < b[x].DirSrc || (a[x].DirSrc == b[x].DirSrc && (a[x].Line < b[x].Line || (a[x].Line == b[x].Line && FrameLt(a, b, x+1)))))))
+//@ pred LocsOK(calls []Call) = forall i :: 0 <= i && i < len(calls) ==> 0 <= calls[i].Location && calls[i].Location < 5
+//@ spec cM(s *Stack) int = cntMain(s.Calls, len(s.Calls))
+//@ spec cL(s *Stack, loc int) int = cntLoc(s.Calls, len(s.Calls), loc)
+//@ pred CountsEq(s *Stack, r *Stack) = cM(s) == cM(r) && cL(s,0) == cL(r,0) && cL(s,1) == cL(r,1) && cL(s,2) == cL(r,2) && cL(s,3) == cL(r,3) && cL(s,4) == cL(r,4)
+//@ pred Lt0(s *Stack, r *Stack) = cL(s,0) > cL(r,0)
+//@ pred Lt4(s *Stack, r *Stack) = cL(s,4) > cL(r,4) || (cL(s,4) == cL(r,4) && Lt0(s, r))
+//@ pred Lt3(s *Stack, r *Stack) = cL(s,3) > cL(r,3) || (cL(s,3) == cL(r,3) && Lt4(s, r))
+//@ pred Lt2(s *Stack, r *Stack) = cL(s,2) > cL(r,2) || (cL(s,2) == cL(r,2) && Lt3(s, r))
+//@ pred Lt1(s *Stack, r *Stack) = cL(s,1) > cL(r,1) || (cL(s,1) == cL(r,1) && Lt2(s, r))
+//@ pred CountsLt(s *Stack, r *Stack) = cM(s) > cM(r) || (cM(s) == cM(r) && Lt1(s, r))
+//@ pred StackLt(s *Stack, r *Stack) = CountsLt(s, r) || (CountsEq(s, r) && FrameLt(s.Calls, r.Calls, 0))
+
+//@ func (*Stack).less
+//@   option overflow=on
+//@   requires s != nil && r != nil && LocsOK(s.Calls) && LocsOK(r.Calls)
+//@   modifies nothing
+//@   ensures [stackLessIsSpec C13] result <==> StackLt(s, r)
+//@   loop 0: invariant -1 <= rangeindex && rangeindex < len(s.Calls) && s != nil && r != nil
+//@   loop 0: invariant lMain == cntMain(s.Calls, rangeindex+1) && rMain == 0 && 0 <= lMain && lMain <= rangeindex+1
+//@   loop 0: invariant forall L :: 0 <= L && L < 5 ==> lLoc[L] == cntLoc(s.Calls, rangeindex+1, L) && rLoc[L] == 0 && 0 <= lLoc[L]
+//@   loop 0: invariant lLoc[0] + lLoc[1] + lLoc[2] + lLoc[3] + lLoc[4] == rangeindex+1
+//@   loop 0: decreases len(s.Calls) - rangeindex
+//@   loop 1: invariant -1 <= rangeindex && rangeindex < len(r.Calls) && s != nil && r != nil
+//@   loop 1: invariant lMain == cM(s) && rMain == cntMain(r.Calls, rangeindex+1) && 0 <= rMain && rMain <= rangeindex+1
+//@   loop 1: invariant forall L :: 0 <= L && L < 5 ==> lLoc[L] == cL(s, L) && rLoc[L] == cntLoc(r.Calls, rangeindex+1, L) && 0 <= rLoc[L] && 0 <= lLoc[L]
+//@   loop 1: invariant lLoc[0] + lLoc[1] + lLoc[2] + lLoc[3] + lLoc[4] == len(s.Calls) && rLoc[0] + rLoc[1] + rLoc[2] + rLoc[3] + rLoc[4] == rangeindex+1
+//@   loop 1: decreases len(r.Calls) - rangeindex
+//@   loop 2: invariant 1 <= i && i <= 5 && cM(s) == cM(r) && forall L :: 1 <= L && L < i ==> cL(s, L) == cL(r, L)
+//@   loop 2: decreases 5 - i
+//@   loop 3: invariant -1 <= rangeindex && rangeindex < len(s.Calls) && CountsEq(s, r) && len(s.Calls) == len(r.Calls)
+//@   loop 3: invariant FrameLt(s.Calls, r.Calls, 0) <==> FrameLt(s.Calls, r.Calls, rangeindex+1)
+//@   loop 3: decreases len(s.Calls) - rangeindex
+
+//@ pred SigLt(s *Signature, r *Signature) = StackLt(&s.Stack, &r.Stack) || (!StackLt(&r.Stack, &s.Stack) && ((s.Locked && !r.Locked) || (s.Locked == r.Locked && s.State < r.State)))
+
+//@ func (*Signature).less
+//@   requires s != nil && r != nil && LocsOK(s.Stack.Calls) && LocsOK(r.Stack.Calls)
+//@   modifies nothing
+//@   ensures [sigLessIsSpec C13] result <==> SigLt(s, r)
